@@ -112,7 +112,14 @@ func (w *world) userAbort() {
 		w.st.Unlock()
 		panic("harness: abort on ready change")
 	}
-	w.chg.Abort() // daemon/api_general.go:abortChange
+	func() {
+		defer func() {
+			if e := recover(); e != nil {
+				w.problem("panic: Change.Abort() on an unready change panicked: %v", e)
+			}
+		}()
+		w.chg.Abort() // daemon/api_general.go:abortChange
+	}()
 	w.st.Unlock()
 }
 
